@@ -23,6 +23,8 @@
      regd     custom level values registered so far (RegisterLevel refuses a second registration)
      vrb      the process-wide verbose switch of hedzr/is (set from outside the library)
      hnd      log/slog handlers made so far: hnd[k] is the logger handler k sits on
+     bulk     loggers that were given BulkN anonymous children in one go (a long-running process deriving a
+              child per request): bulk[k] is the parent of the k-th batch; the children are never used again
      closed   file destinations (writer ids from FileBase on) that were closed through the writer
               list they are in: every later Write to them fails, nothing arrives                *)
 EXTENDS Levels, TLC, SequencesExt, FiniteSetsExt
@@ -52,6 +54,8 @@ CONSTANTS
     CtxVals,         \* context contents explored by LogM: each a sequence of <<context key, value>> (value 0 = absent)
     CallArgs,        \* call-site attribute lists explored by LogM
     FlagSets,        \* sequence of flag sets used as arguments of the flag calls (sets of flag names)
+    MaxBulk,         \* bound on BulkKids batches in the exhaustive model
+    BulkN,           \* children per batch
     FileBase,        \* writer ids from here on are files (harness/rec.go)
     MaxHandlers,     \* bound on log/slog handlers in the exhaustive model
     MaxSaved,        \* bound on outstanding SaveFlagsAndMod / SaveLevelAndSet scopes in the exhaustive model
@@ -85,7 +89,7 @@ InitState ==
      cfg |-> <<DefaultCfg(FALSE, TRUE, InitLevel)>>,
      dbg |-> FALSE, deflvl |-> InitLevel, deflog |-> 1, attrsR |-> FALSE,
      flags |-> InitFlags, savedf |-> <<>>, savedl |-> <<>>,
-     treat |-> InitTreat, errdev |-> InitErrDev, regd |-> InitRegd, vrb |-> FALSE, hnd |-> <<>>, closed |-> {}]
+     treat |-> InitTreat, errdev |-> InitErrDev, regd |-> InitRegd, vrb |-> FALSE, hnd |-> <<>>, closed |-> {}, bulk |-> <<>>]
 
 Live(s) == 1..s.n
 
@@ -209,6 +213,9 @@ Guard(s, e) ==
       [] e.op = "CloseW" -> e.l \in Live(s) /\ \A j \in DOMAIN Dest(s, e.l, e.a) : Dest(s, e.l, e.a)[j] > 0
       \* re-entrancy: a record of logger e.l one of whose values, while being formatted, issues a record of
       \* logger e.a (String() of an attribute value logs); creating a child of e.a from inside e.l.Each(...)
+      \* long-running processes: BulkN anonymous children of e.l in one go; 70 000 loggers derived elsewhere
+      [] e.op = "BulkKids" -> e.l \in Live(s)
+      [] e.op = "Burn" -> TRUE
       [] e.op = "LogNest" -> e.l \in Live(s) /\ e.a \in Live(s)
       [] e.op = "EachNew" -> e.l \in Live(s) /\ e.a \in Live(s) /\ OptLists[1] = <<>>
       [] e.op = "VrbMode" -> TRUE                  \* the process-wide verbose switch set from outside the library (hedzr/is)
@@ -278,6 +285,8 @@ Step(s, e) ==
            IN {[s EXCEPT !.cfg[e.l] = c3, !.flags = nf, !.dbg = s.dbg \/ o.level = Debug, !.hnd = Append(s.hnd, e.l)]}
       [] e.op = "HEmit" -> {s}
       [] e.op = "LogNest" -> {s}
+      [] e.op = "BulkKids" -> {[s EXCEPT !.bulk = Append(s.bulk, e.l)]}
+      [] e.op = "Burn" -> {s}
       [] e.op = "EachNew" -> Step(s, [op |-> "New", l |-> e.a, k |-> "", a |-> 1, b |-> 0])
       [] e.op = "CloseW" -> {[s EXCEPT !.closed = @ \cup {w \in ToSet(Dest(s, e.l, e.a)) : w >= FileBase}]}
       \* a refused registration (value in use, or title in use) changes nothing at all; an accepted
@@ -443,6 +452,11 @@ EachOf(s, l) ==   \* Each: every logger of the subtree exactly once, with its de
         ids == SetToSortSeq(sub, <)
     IN [i \in 1..Len(ids) |-> <<ids[i], DepthOf(s, ids[i]) - DepthOf(s, l)>>]
 
+\* ... and the bulk children below l: per depth below l, how many Each must visit (they are leaves)
+BulkAt(s, l, d) == BulkN * Cardinality({k \in DOMAIN s.bulk : s.bulk[k] \in Subtree(s, l) /\ DepthOf(s, s.bulk[k]) - DepthOf(s, l) + 1 = d})
+EachBulk(s, l) == {<<d, BulkAt(s, l, d)>> : d \in {dd \in 1..(s.n + 1) : BulkAt(s, l, dd) > 0}}
+HasBulk(s, l) == \E k \in DOMAIN s.bulk : s.bulk[k] \in Subtree(s, l)
+
 \* DumpSubloggers: one line per logger of the subtree, indented by its depth below l
 DumpDepths(s, l) == LET e == EachOf(s, l) IN [x \in 1..Len(e) |-> e[x][2]]
 
@@ -488,6 +502,8 @@ SetAttrsR(b) == "SetAttrsR" \in Acts /\ b \in {0, 1} /\ Do("SetAttrsR", 0, "", b
 DbgMode(b) == "DbgMode" \in Acts /\ b \in {0, 1} /\ Do("DbgMode", 0, "", b, 0)
 MkHandler(l, a) == "MkHandler" \in Acts /\ Len(st.hnd) < MaxHandlers /\ Do("MkHandler", l, "", a, 0)
 HEmit(h, r) == "HEmit" \in Acts /\ r \in {Debug, Info, Warn, Error} /\ Do("HEmit", h, "", r, 0)
+BulkKids(l) == "BulkKids" \in Acts /\ Len(st.bulk) < MaxBulk /\ Do("BulkKids", l, "", 0, 0)
+Burn == "Burn" \in Acts /\ Do("Burn", 0, "", 0, 0)
 LogNest(l, m) == "LogNest" \in Acts /\ Do("LogNest", l, "", m, 0)
 EachNew(l, m) == "EachNew" \in Acts /\ st.n < MaxLoggers /\ Do("EachNew", l, "", m, 0)
 CloseW(l, r) == "CloseW" \in Acts /\ Do("CloseW", l, "", r, 0)
@@ -532,6 +548,8 @@ Next ==
     \/ \E b \in {0, 1} : DbgMode(b)
     \/ \E b \in {0, 1} : VrbMode(b)
     \/ \E l \in 1..MaxLoggers, m \in 1..MaxLoggers : LogNest(l, m)
+    \/ \E l \in 1..MaxLoggers : BulkKids(l)
+    \/ Burn
     \/ \E l \in 1..MaxLoggers, m \in 1..MaxLoggers : EachNew(l, m)
     \/ \E l \in 1..MaxLoggers, r \in LogSevs : CloseW(l, r)
     \/ \E l \in 1..MaxLoggers, a \in DOMAIN HandlerOpts : MkHandler(l, a)
